@@ -6,6 +6,7 @@ import (
 	"encoding/binary"
 	"errors"
 	"fmt"
+	"maps"
 	"math"
 	"slices"
 	"sort"
@@ -903,6 +904,22 @@ func extractDataRegexes(qs query.ConditionsSet, tagDetails map[string]query.TagD
 func SearchStreams(ctx context.Context, indexes []*Reader, limitIDs *bitmask.LongBitmask, refTime time.Time, qs query.ConditionsSet, grouping *query.Grouping, sorting []query.Sorting, limit, skip uint, tagDetails map[string]query.TagDetails, converters map[string]ConverterAccess, extractRegexes bool) ([]*Stream, bool, *DataRegexes, error) {
 	if len(qs) == 0 {
 		return nil, false, nil, nil
+	}
+	// the definitions of undecided tags are made part of the query: their absolute times have to be
+	// relative to the reference time of this search, not to the time the tag was defined
+	rebased := map[string]query.TagDetails(nil)
+	for tn, td := range tagDetails {
+		rtd := td.WithReferenceTime(refTime)
+		if rtd.ReferenceTime.Equal(td.ReferenceTime) {
+			continue
+		}
+		if rebased == nil {
+			rebased = maps.Clone(tagDetails)
+		}
+		rebased[tn] = rtd
+	}
+	if rebased != nil {
+		tagDetails = rebased
 	}
 	qs = qs.InlineTagFilters(tagDetails)
 
